@@ -1,10 +1,12 @@
 """C03 Unsubscribing silences the subscriber and frees its sources (virtual time, enumerated dispose points)."""
 from __future__ import annotations
 
+import os
 import sys
 from collections import Counter
 from typing import Any
 
+import reactivex
 from reactivex import Observable
 
 from ..catalog import CATALOG
@@ -24,15 +26,15 @@ RULE = ("seeded random pipelines (depth 1-4 from the %d-entry operator catalog, 
         "the cases puts each callback-taking catalog entry in turn directly below the subscriber. One evaluation = "
         "one (case, dispose point). After dispose_ret: no notification at the disposed subscriber; no user-callback "
         "invocation (callbacks of stages up to the window/group operator are excused while a window/group probe that "
-        "was live at the dispose is still subscribed; observed, not judged: callbacks made while an Observable.subscribe() "
-        "call that was already executing when dispose() was called has not returned yet, and -- dispose point (c) only -- "
+        "was live at the dispose is still subscribed; observed, not judged: callbacks after a dispose() that was "
+        "called while an Observable.subscribe() call of the pipeline was still executing, and -- dispose point (c) only -- "
         "callbacks made by the very operator activation that was calling the disposing callback); every source subscription closed at the dispose instant (or, when "
         "window/group probes were live, by the instant the last of them ended) and none opened later and kept open. "
         "non-trivial = the subscriber had not terminated when dispose() was called; distinct = digest of (sources, "
         "pipeline with arguments, dispose point)" % len(CATALOG))
 ASSUMPTIONS = ["TestScheduler / HistoricalScheduler are the clock (C28)", "probe sources are harness code and conforming here",
                "the run is cut at virtual time 600", "window/group probes still subscribed are unsubscribed at t=500"]
-CASES = {"quick": 640, "thorough": 16000}
+CASES = {"quick": 960, "thorough": 40000}
 REQUIRED = {"set:ops": len(CATALOG) - 12,
             "disposed_while_live": {"quick": 1500, "thorough": 60000},
             "variant_a_at_action": {"quick": 1200, "thorough": 50000},
@@ -41,6 +43,13 @@ REQUIRED = {"set:ops": len(CATALOG) - 12,
             "variant_d_in_on_next_trampoline": {"quick": 60, "thorough": 2500},
             "subscriptions_closed_by_dispose": {"quick": 1500, "thorough": 60000},
             "disposed_with_live_window": {"quick": 50, "thorough": 2000}}
+# catalog entries that are thin wrappers: the late call is made by the implementing operator
+IMPLEMENTED_BY = {("buffer_when", "closing_mapper"): ("window_when", "closing_mapper"),
+                  ("window_toggle", "closing_mapper"): ("group_join", "left_duration_mapper"),
+                  ("buffer_toggle", "closing_mapper"): ("group_join", "left_duration_mapper"),
+                  ("join", "left_duration_mapper"): ("join", "left_duration_mapper"),
+                  ("group_by", "element_mapper"): ("group_by_until", "element_mapper"),
+                  ("on_error_resume_next_factory", "factory"): ("on_error_resume_next", "factory")}
 VARIANT_NAME = {"a": "at-action", "b": "in-on_next", "c": "in-callback", "d": "in-on_next-trampoline"}
 UNIT_TIMEOUT = {"quick": 600, "thorough": 7200}
 EXCLUDE = ("sub_on",)     # as in C02 (DESIGN: C03 runs C02's generator)
@@ -81,49 +90,52 @@ def gen(seed: int, idx: int) -> tuple:
     return b, r.random() < 0.5
 
 
+LIBDIR = os.path.dirname(os.path.abspath(reactivex.__file__))
 SUBSCRIBE_CODE = Observable.subscribe.__code__
 PROBE_CALL_CODE = CallbackProbe.__call__.__code__
 
 
 class Top(ProbeObserver):
-    """Probe subscriber that, at the moment it really calls dispose(), remembers which library activations are still
-    on the stack: every Observable.subscribe() call in progress ("inflight_subscribe": its subscription handle does not
-    exist yet, so nothing can cancel what that call does synchronously before it returns -- the reason why the harness
-    itself has to postpone a dispose requested before its own subscribe() returned), and, when dispose() is called from
-    inside an operator's user callback, the operator activation that is calling that callback ("same_activation")."""
+    """Probe subscriber that, at the moment it really calls dispose(), looks at which library activations are still on
+    the stack:
+    * an Observable.subscribe() call of the pipeline in progress (`during_subscribe`): the handle of that subscription
+      does not exist yet, so nothing can cancel what the call does synchronously before it returns, and the release of
+      what it has set up (finally actions included) can only happen once it has returned -- the very reason why this
+      harness has to postpone a dispose requested before its own subscribe() returned. For such dispose points only
+      silence and closure are asserted; later callbacks are counted as observations;
+    * when dispose() is called from inside an operator's user callback, the operator activation that is calling that
+      callback (`activation`): callbacks made before that activation returns are observations as well."""
 
-    inflight: dict | None = None
+    during_subscribe = False
+    activation: Any = None
 
     def dispose(self) -> None:
         if self.subscription is not None and self.dispose_seq is None:
-            frames: dict = {}
             f = sys._getframe(1)
             prev_code = None
             while f is not None:
                 if f.f_code is SUBSCRIBE_CODE:
-                    frames[f] = "inflight_subscribe"
-                elif prev_code is PROBE_CALL_CODE and "same_activation" not in frames.values():
-                    frames[f] = "same_activation"
+                    self.during_subscribe = True
+                elif prev_code is PROBE_CALL_CODE and self.activation is None:
+                    self.activation = f
                 prev_code = f.f_code
                 f = f.f_back
-            self.inflight = frames
         super().dispose()
 
 
 def watch_callbacks(b: P.Built, top: Top) -> None:
-    """After the dispose, a callback invoked while one of the remembered activations is still on the stack is marked by
-    a ("note", "inflight", tag) event directly behind its "cb" event."""
+    """After the dispose, a callback invoked while the remembered operator activation is still on the stack is marked by
+    a ("note", "inflight", "same_activation") event directly behind its "cb" event."""
     lab = b.lab
     for p in b.g.callbacks:
         def make(p: Any, orig: Any) -> Any:
             def impl(*a: Any, **kw: Any) -> Any:
-                fr = top.inflight
-                if fr and top.dispose_seq is not None:
+                act = top.activation
+                if act is not None and top.dispose_seq is not None:
                     f = sys._getframe(1)
                     while f is not None:
-                        tag = fr.get(f)
-                        if tag is not None:
-                            lab.add("note", "inflight", tag, p.name)
+                        if f is act:
+                            lab.add("note", "inflight", "same_activation", p.name)
                             break
                         f = f.f_back
                 return orig(*a, **kw)
@@ -142,10 +154,14 @@ def run(seed: int, idx: int, keep: list | None, variant: tuple | None) -> tuple:
     if variant is not None:
         watch_callbacks(b, top)
     after = None
-    if variant is not None and variant[0] == "a":
-        j = variant[1]
+    if variant is not None:
+        j = variant[1] if variant[0] == "a" else None
 
-        def after(n: int) -> None:
+        def after(n: int, item: Any) -> None:
+            if top.dispose_seq is not None:
+                code = getattr(item.action, "__code__", None)
+                if code is not None and code.co_filename.startswith(LIBDIR):
+                    lab.add("libaction", getattr(item.action, "__qualname__", "?"))
             if n == j:
                 top.dispose()
     if variant is not None and variant[0] == "c":
@@ -180,10 +196,22 @@ def judge(b: P.Built, top: Any, keep: list | None) -> dict | None:
     for e in ev[D + 1:]:
         if e[2] == "recv" and e[3] == "top":
             out["problems"].append(("recv", "recv", e))
-        elif e[2] == "cb":
+    for e in ev[D + 1:]:
+        if e[2] == "libaction":
+            # not part of the statement (every stage's auto-detaching observer is stopped by the dispose, so a timer that
+            # was not cancelled fires into the void): counted only
+            out["obs"]["library_scheduler_actions_run_after_dispose_%s" % ("later" if e[1] > TD else "same_instant")] += 1
+    if not out["live_before"]:
+        # the subscriber had already terminated (dispose() from a callback that runs during the termination's own
+        # clean-up, e.g. a finally_action): only silence is asserted; what termination must release is C02's subject
+        return out
+    for e in ev[D + 1:]:
+        if e[2] == "cb":
             p = cbinfo[e[3]]
             nxt = ev[e[0] + 1] if e[0] + 1 < len(ev) else None
-            if nxt is not None and nxt[2] == "note" and nxt[3] == "inflight":
+            if top.during_subscribe:
+                out["obs"]["callbacks_after_dispose_made_during_a_subscribe_call"] += 1
+            elif nxt is not None and nxt[2] == "note" and nxt[3] == "inflight":
                 out["obs"]["callbacks_during_" + nxt[4]] += 1
             elif live and nested_stage is not None and p.stage <= nested_stage and (unbounded or e[1] <= L):
                 out["obs"]["callbacks_excused_live_window"] += 1
@@ -251,7 +279,8 @@ def mech_of(b: P.Built, kept: list | None, variant: tuple, prob: tuple) -> str:
     if prob[0] == "callback":
         # the operator that made the late call is the mechanism, whatever else the (minimised) witness needs
         p = next(p for p in b.g.callbacks if p.name == prob[2][3])
-        return "C03:%s:%s-after-dispose-%s" % (p.opname, p.role, VARIANT_NAME[variant[0]])
+        op, role = IMPLEMENTED_BY.get((p.opname, p.role), (p.opname, p.role))
+        return "C03:%s:%s-after-dispose-%s" % (op, role, VARIANT_NAME[variant[0]])
     opn = "+".join(sorted(set(b.opnames(kept)))) or "source-only"
     return "C03:%s:%s-after-dispose-%s" % (opn, prob[0], VARIANT_NAME[variant[0]])
 
